@@ -497,8 +497,14 @@ class _Exporter:
 
         sindent = _SINGLE_INDENT * indent
 
+        def to_ref(x):
+            # The right-hand side is a use: it may be a constant that was inlined.
+            if isinstance(x, ValueInfoProto):
+                x = x.name
+            return self._translate_onnx_var_ref(x)
+
         def assign(lhs_var: str, rhs_var: str):
-            return f"{sindent}{to_var(lhs_var)} = {to_var(rhs_var)}"
+            return f"{sindent}{to_var(lhs_var)} = {to_ref(rhs_var)}"
 
         if isinstance(lhs, (str, ValueInfoProto)):
             return [assign(lhs, rhs)]
